@@ -325,6 +325,10 @@ def run_tree(spec):
                     if not in_box(box, (s[1], s[2], s[3])):
                         raise Fail("boundary:in_box", "particle id %d at (%r,%r,%r) outside the box after step %d (boundary %s)" % (s[0], s[1], s[2], s[3], step, spec["boundary"]))
             merging = sim.collision != "none" and not recorder
+            if spec["boundary"] == "open" and not merging and len(live) != len(after):
+                # the particles flagged by the end-of-step boundary check must be gone when the step returns
+                raise Fail("boundary:open_flagged", "open boundary with a tree: %d particle(s) flagged for removal (y=NaN) are still in particles[0..N-1] "
+                           "after step %d returned (N=%d)" % (len(after) - len(live), step, sim.N))
             if spec["boundary"] == "open" or (spec["boundary"] == "none" and use_tree):
                 if not set(ids) <= expected:
                     raise Fail("tree:conservation", "unknown particle ids %s after step %d" % (sorted(set(ids) - expected)[:5], step))
